@@ -98,35 +98,64 @@ def _summary(e):
     return json.dumps(small)[:1400]
 
 
-def _replay_case(ctx, case, cls=None):
-    """Re-record one case alone and validate it alone; report every event that is rejected again."""
+REPLAY_ATTEMPTS = 8
+
+
+def _replay_case(ctx, case, cls=None, first=None, first_failed=None):
+    """Re-record one case alone and validate it alone; report every event that is rejected again.
+
+    Some defects depend on Go's map iteration order: the case is re-recorded up to REPLAY_ATTEMPTS times and
+    any attempt that is rejected counts.  If the originally rejected event (first) is never rejected again,
+    identical calls have produced different results: that is reported as a violation of determinism with both
+    observations."""
     binp = ctx.build("c12")
     d = ctx.subdir("replay")
     cp = os.path.join(d, "case.json")
     json.dump(case, open(cp, "w"))
-    tp = os.path.join(d, "trace.ndjson")
-    ctx.run([binp, "one", cp, tp], timeout=300)
-    events = vlib.read_ndjson(tp)
     reproduced = []
-    pos = 0
-    while pos < len(events):
-        part = os.path.join(d, "part%d.ndjson" % pos)
-        vlib.write_ndjson(part, events[pos:])
-        ok, line, res = ctx.validate_trace("MetricsTrace", part, label="replay of one case", traces=0, timeout=600)
-        if ok:
-            break
-        if line is None:
-            raise vlib.Infra("replay validation failed without a rejected line:\n" + res.error_text[-2000:])
-        bad = events[pos + line - 1]
-        failed = _failed_checks(res)
-        c = cls or _class_of(bad)
-        if bad.get("ev") == "font":
-            c = _class_of(bad)
-        what = ("%s event (class %s%s) is not accepted by MetricsTrace.tla; failed checks: %s; event: %s" % (
-            bad.get("ev"), c, (", stage " + bad["stage"]) if "stage" in bad else "", ", ".join(failed), _summary(bad)))
-        ctx.violation(what, sig={"ev": bad.get("ev"), "class": c, "failed": ",".join(failed)}, case=case)
-        reproduced.append((c, ",".join(failed)))
-        pos += line
+    events = []
+    for attempt in range(REPLAY_ATTEMPTS):
+        tp = os.path.join(d, "trace%d.ndjson" % attempt)
+        ctx.run([binp, "one", cp, tp], timeout=300)
+        events = vlib.read_ndjson(tp)
+        pos = 0
+        while pos < len(events):
+            part = os.path.join(d, "part%d-%d.ndjson" % (attempt, pos))
+            vlib.write_ndjson(part, events[pos:])
+            ok, line, res = ctx.validate_trace("MetricsTrace", part, label="replay of one case (attempt %d)" % (attempt + 1),
+                                               traces=0, timeout=600)
+            if ok:
+                break
+            if line is None:
+                raise vlib.Infra("replay validation failed without a rejected line:\n" + res.error_text[-2000:])
+            bad = events[pos + line - 1]
+            failed = _failed_checks(res)
+            c = cls or _class_of(bad)
+            if bad.get("ev") == "font":
+                c = _class_of(bad)
+            what = ("%s event (class %s%s) is not accepted by MetricsTrace.tla; failed checks: %s%s; event: %s" % (
+                bad.get("ev"), c, (", stage " + bad["stage"]) if "stage" in bad else "", ", ".join(failed),
+                (" (attempt %d of the replay: the result depends on the run)" % (attempt + 1)) if attempt else "",
+                _summary(bad)))
+            ctx.violation(what, sig={"ev": bad.get("ev"), "class": c, "failed": ",".join(failed)}, case=case)
+            reproduced.append((c, ",".join(failed)))
+            pos += line
+        if reproduced:
+            return reproduced
+    if first is not None:
+        # never rejected again: identical calls, different results
+        same_stage = [e for e in events if e.get("stage") == first.get("stage")] or events
+        diff = {}
+        for k in first:
+            if same_stage and first.get(k) != same_stage[0].get(k):
+                diff[k] = [first.get(k), same_stage[0].get(k)]
+        c = cls or _class_of(first)
+        what = ("nondeterministic result: a %s event (class %s) was rejected by MetricsTrace.tla (failed checks: %s) but %d "
+                "identical re-recordings of the same case were accepted; differing fields [rejected, accepted]: %s" % (
+                    first.get("ev"), c, first_failed, REPLAY_ATTEMPTS, json.dumps(diff)[:1200]))
+        ctx.violation(what, sig={"ev": first.get("ev"), "class": c, "failed": "nondeterministic:" + str(first_failed)},
+                      case=case)
+        reproduced.append((c, "nondeterministic:" + str(first_failed)))
     return reproduced
 
 
@@ -162,9 +191,7 @@ def _survey(ctx, d, cls, dropped, cases, reported, seen_cases):
             continue
         seen_cases.add(key)
         new += 1
-        sigs = _replay_case(ctx, cases[key], cls)
-        if not sigs:
-            raise vlib.Infra("a surveyed failure of case %s (%s) did not reproduce in isolation" % (key, cls))
+        sigs = _replay_case(ctx, cases[key], cls, first=bad, first_failed=failing[ln])
         reported.update(sigs)
     ctx.notes.append("class %s: %d further events surveyed, %d show an already reported combination of failed checks, "
                      "%d accepted, %d new combinations replayed" % (cls, len(dropped), same, len(dropped) - len(failing), new))
@@ -216,10 +243,7 @@ def _validate_all(ctx, sources, label):
             case = cases.get(key)
             if case is None:
                 raise vlib.Infra("rejected event has no case (class %s, case %r)" % (cls, key))
-            sigs = _replay_case(ctx, case, cls)
-            if not sigs:
-                ctx.notes.append("a rejected %s event did not reproduce in isolation (case %s)" % (cls, key))
-                raise vlib.Infra("rejection of case %s (%s) did not reproduce in isolation" % (key, cls))
+            sigs = _replay_case(ctx, case, cls, first=bad, first_failed=",".join(_failed_checks(res)))
             reported.update(sigs)
         if rejections[cls] >= maxrej:
             dropped = [x for x in remaining if x[1] == cls]
@@ -278,7 +302,7 @@ def run(ctx):
         raise vlib.Infra("harness recorded %d events for %d cases" % (n1, len(gen.cases)))
 
     # 3. V: whole fonts
-    nfonts = ctx.pick(60, 1200)
+    nfonts = ctx.pick(100, 1200)
     t2 = os.path.join(d, "fonts.ndjson")
     ctx.run([binp, "fonts", str(nfonts), t2], timeout=1500)
     for e in vlib.read_ndjson(t2)[:1]:
